@@ -35,6 +35,9 @@ MFlush(dropping, onfail) == Micro("flushcs", dropping, onfail, 0, "", 0)
 MAbort == Micro("abortcs", FALSE, "", 0, "", 0)
 MWake(w) == Micro("wake", FALSE, "", w, "", 0)
 MWait == Micro("wait", FALSE, "", 0, "", 0)
+\* the point just after wake() returned: an eager waker may have run the consumer inside wake(),
+\* or the producer may be preempted there
+MAfterWake == Micro("afterwake", FALSE, "", 0, "", 0)
 MRet(res, k) == Micro("ret", FALSE, "", 0, res, k)
 
 NoOp == Op("none", 0)
@@ -119,7 +122,8 @@ PStep(c) ==
                THEN [c EXCEPT !.ready = <<>>, !.rb = 0, !.wd = FALSE, !.st = "err", !.wk = 0,
                               !.todo = IF c.wk # 0 THEN <<MWake(c.wk)>> \o rest ELSE rest]
                ELSE [c EXCEPT !.todo = rest]
-          [] m.m = "wake" -> [c EXCEPT !.woken = c.woken \cup {m.w}, !.todo = rest]
+          [] m.m = "wake" -> [c EXCEPT !.woken = c.woken \cup {m.w}, !.todo = <<MAfterWake>> \o rest]
+          [] m.m = "afterwake" -> [c EXCEPT !.todo = rest]
           [] m.m = "wait" -> [c EXCEPT !.todo = rest]
   IN RunLocal(c1, <<>>)
 
